@@ -51,7 +51,23 @@ impl<T: Qcow2IoOps> Qcow2Dev<T> {
         F: FnOnce(&mut Qcow2Header),
     {
         let buf = h.serialize_to_buf()?;
-        if let Err(err) = self.call_write(0, &buf).await {
+
+        // Requests have to be aligned to the block size, and be issued from
+        // an aligned buffer: rewrite the whole blocks which hold the header,
+        // keeping whatever follows it in the last one.
+        let bs = 1_usize << self.info.block_size_shift;
+        let len = buf.len().div_ceil(bs) * bs;
+        let mut io_buf = crate::ops::zeroed_io_buf(len);
+
+        let res = async {
+            let done = self.call_read(0, &mut io_buf).await?;
+            io_buf[done..].fill(0);
+            io_buf[..buf.len()].copy_from_slice(&buf);
+            self.call_write(0, &io_buf).await
+        }
+        .await;
+
+        if let Err(err) = res {
             rollback(h);
             return Err(err);
         }
